@@ -351,6 +351,78 @@ def fuzz_alphabet_typed(rng, n):
     return names
 
 
+def open_alphabet(rng, n, remote_as=65002):
+    """n peer OPENs from a grammar (RFC 4271 4.2, RFC 5492): random capability sets in random packaging, boundary hold times,
+    2- and 4-octet AS forms, and at most ONE problem each - version, AS 0, another AS (in the field or in the 4-octet
+    capability), hold time 1 or 2, an optional parameter that is not Capabilities, a 4-octet-AS / multiprotocol capability
+    of the wrong length - with the meta data the RFC 4271 profile needs.  Names start with FZ so that replays carry them."""
+    names = []
+    for k in range(n):
+        problem = rng.choice([None, None, None, 'ver', 'as0', 'asbad', 'hold', 'optparam', 'badcap'])
+        ver, hold = 4, rng.choice([0, 3, 4, 9, 30, 90, 180, 240, 65535])
+        as4 = rng.random() < 0.7 or remote_as > 65535
+        asn = remote_as
+        caps = []
+        for afi, safi in rng.sample([(1, 1), (2, 1), (1, 4), (1, 128), (2, 128), (1, 133), (25, 70), (16388, 71), (1, 73), (3, 9)], rng.choice([0, 1, 2, 4])):
+            caps.append((1, struct.pack('!HBB', afi, 0, safi)))
+        if rng.random() < 0.6:
+            caps.append((2, b''))
+        if rng.random() < 0.3:
+            caps.append((128, b''))
+        if rng.random() < 0.3:
+            caps.append((70, b''))
+        if rng.random() < 0.3:
+            caps.append((64, struct.pack('!H', rng.choice([0, 120, 0x8078])) + b''.join(struct.pack('!HBB', 1, 1, rng.choice([0, 0x80])) for _ in range(rng.choice([0, 1])))))
+        if rng.random() < 0.2:
+            caps.append((69, struct.pack('!HBB', 1, 1, rng.choice([1, 2, 3]))))
+        if rng.random() < 0.2:
+            caps.append((5, struct.pack('!HHH', 1, 1, 2)))
+        if rng.random() < 0.3:
+            caps.append((rng.choice([3, 4, 6, 67, 73, 129, 200, 255]), bytes(rng.getrandbits(8) for _ in range(rng.choice([0, 1, 4, 9])))))
+        if problem == 'ver':
+            ver = rng.choice([0, 1, 2, 3, 5, 255])
+        elif problem == 'hold':
+            hold = rng.choice([1, 2])
+        elif problem == 'asbad':
+            asn = rng.choice([65009, 1, 64512] + ([4200000009, 65536] if as4 else []))
+        elif problem == 'as0':
+            as4, asn = False, 0
+        if as4:
+            caps.append((65, struct.pack('!I', asn)))
+        if problem == 'badcap':
+            if rng.random() < 0.5:
+                caps = [c for c in caps if c[0] != 65] + [(65, bytes(rng.choice([0, 2, 3, 5])))]
+            else:
+                caps.append((1, bytes(rng.choice([0, 3, 5]))))
+        rng.shuffle(caps)
+        # packaging: one Capabilities parameter, one each, or two groups
+        style = rng.choice(['one', 'each', 'two'])
+        groups = [caps] if style == 'one' else ([[c] for c in caps] if style == 'each' else [caps[:len(caps) // 2], caps[len(caps) // 2:]])
+        params = []
+        for g in groups:
+            if g:
+                body = b''.join(struct.pack('!BB', c, len(v)) + v for c, v in g)
+                if len(body) < 250:
+                    params.append(struct.pack('!BB', 2, len(body)) + body)
+        if problem == 'optparam':
+            junk = bytes(rng.getrandbits(8) for _ in range(rng.choice([0, 1, 6])))
+            params.insert(rng.randint(0, len(params)), struct.pack('!BB', rng.choice([1, 3, 4, 254]), len(junk)) + junk)
+        opt = b''.join(params)
+        if len(opt) > 250:
+            opt = params[0]
+        field = asn if asn < 65536 else 23456
+        fr = frame(1, struct.pack('!BHHIB', ver, field, hold, rng.choice([0x0a000002, 0x01010101, 0xfffffffe]), len(opt)) + opt)
+        meta = dict(kind='OPEN', ver=ver, asn=asn, hold=hold)
+        if problem == 'badcap':
+            meta['malformed'] = True
+        if problem == 'optparam':
+            meta['unsup_opt'] = True
+        name = 'FZO%d' % k
+        MSGS[name] = (fr, meta)
+        names.append(name)
+    return names
+
+
 def register_fuzz(d, metas=None):
     for k, m in (metas or {}).items():
         if k in (d or {}):
